@@ -133,12 +133,12 @@ class CaseGen:
             cs = [r.pick(ALLCH) for _ in range(r.pick([0, 1, 3, 6, 12, 20, 30]))]
             hint = r.pick([0, 0, len(cs), 16, 17, 40]) if not r.chance(1, 8) else r.pick(SIZES_BIG)
             pa = r.below(len(cs)) if cs and self.p.get('user_panics') and r.chance(1, 3) else -1
-            self.emit('plain', 'collect_chars', hint, pa, *cs)
+            self.emit('plain', 'collect_chars' + r.pick(['', '', ':ref']), hint, pa, *cs)
             self.slots.append(None if pa >= 0 else Slot(b''.join(enc(c) for c in cs), 'H'))
         elif c == 'collect_strs':
             ss = [gen_text(r, r.pick([0, 1, 5, 9, 16, 20])) for _ in range(r.pick([0, 1, 2, 4]))]
             pa = r.below(len(ss)) if ss and self.p.get('user_panics') and r.chance(1, 3) else -1
-            self.emit('plain', 'collect_strs', pa, *[hexs(s) for s in ss])
+            self.emit('plain', 'collect_strs' + r.pick(['', '', ':string', ':box', ':cow', ':lean']), pa, *[hexs(s) for s in ss])
             self.slots.append(None if pa >= 0 else Slot(b''.join(ss), 'H'))
         elif c == 'display':
             ps = [gen_text(r, r.pick([0, 1, 5, 9, 16, 20])) for _ in range(r.pick([0, 1, 2, 3, 5]))]
@@ -227,12 +227,12 @@ class CaseGen:
             cs = [r.pick(ALLCH) for _ in range(r.pick([0, 1, 2, 5, 10, 20]))]
             hint = r.pick([0, len(cs), 2 * len(cs), 16]) if not (self.p.get('big_sizes') and r.chance(1, 5)) else r.pick(SIZES_BIG)
             pa = r.below(len(cs)) if cs and self.p.get('user_panics') and r.chance(1, 3) else -1
-            self.emit('plain', 'extend_chars', i, hint, pa, *cs)
+            self.emit('plain', 'extend_chars' + r.pick(['', '', ':ref']), i, hint, pa, *cs)
             s.text = t + b''.join(enc(c) for k, c in enumerate(cs) if pa < 0 or k < pa)
         elif c == 'extend_strs':
             ss = [gen_text(r, r.pick([0, 1, 5, 9, 16])) for _ in range(r.pick([0, 1, 2, 4]))]
             pa = r.below(len(ss)) if ss and self.p.get('user_panics') and r.chance(1, 3) else -1
-            self.emit('plain', 'extend_strs', i, pa, *[hexs(x) for x in ss])
+            self.emit('plain', 'extend_strs' + r.pick(['', '', ':string', ':box', ':cow', ':lean']), i, pa, *[hexs(x) for x in ss])
             s.text = t + b''.join(x for k, x in enumerate(ss) if pa < 0 or k < pa)
         elif c == 'write_fmt':
             ps = [gen_text(r, r.pick([0, 1, 5, 9, 16])) for _ in range(r.pick([0, 1, 2, 4]))]
